@@ -76,6 +76,7 @@ def register(db):
     register_acceptance_4(db)
     register_acceptance_5(db)
     register_acceptance_6(db)
+    register_long_years(db)
     register_from_string_acceptance(db)
     register_period_acceptance(db)
     FROM = [
@@ -331,7 +332,7 @@ def lexical_form(tokens):
         elif kind == "sep":
             groups.append((tok, [repr(tok[1])]))
         elif kind == "year":
-            groups.append((tok, (["'-'"] if tok[1] == "negative" else []) + ["pad(Y, 4)"]))
+            groups.append((tok, (["'-'"] if tok[1].startswith("negative") else []) + ["yd" if tok[1].endswith("long") else "pad(Y, 4)"]))
         elif kind == "frac":
             groups.append((tok, ["'.'", f"pad(k, {tok[1]})"] if tok[1] else []))
         elif kind == "tz":
@@ -348,6 +349,10 @@ def lexical_form(tokens):
             plan.setdefault(PD, []).append(("accepts-two-digits", {"head": head, "tok": ps[0], "rest": rest, "k": tok[1]}))
         elif kind == "sep":
             plan.setdefault(SK, []).append(("accepts-the-separator", {"head": head, "rest": rest}))
+        elif kind == "year" and tok[1].endswith("long"):
+            ghost["yd"] = "str"
+            ranges += ["matches(yd, '[0-9]+')", "matches(yd, '[1-9][0-9][0-9][0-9][0-9]+')", "len(yd) >= 5"]
+            plan.setdefault(PY, []).append((f"accepts-{'negative-' if tok[1].startswith('negative') else ''}long-year", {"head": head, "yd": "yd", "rest": rest}))
         elif kind == "year":
             ghost["Y"] = "int"
             ranges += ["0 <= Y", "Y <= 9999"]
@@ -376,10 +381,14 @@ def lexical_form(tokens):
     hints.append(f"head_of({first}, {_cat(flat[1:])})")
     if first.startswith("pad("):
         hints.append(f"digit_chars({first}, {int(first.rsplit(',', 1)[1].strip(' )'))})")
+    elif first == "yd":
+        hints.append("digit_at(yd, 0)")
     if len(flat) > 1:
         hints.append(f"last_of({_cat(flat[:-1])}, {last})")
     if last.startswith("pad("):
         hints.append(f"digit_chars({last}, {int(last.rsplit(',', 1)[1].strip(' )'))})")
+    elif last == "yd":
+        hints.append("digit_at(yd, len(yd) - 1)")
     lexical_form.pieces = flat
     lexical_form.tz_pieces = groups[-1][1] if groups and groups[-1][0][0] == "tz" else []
     return core, ghost, ranges, plan, hints
@@ -422,6 +431,18 @@ def register_from_string_acceptance(db):
             y = "Y" if sign == "positive" else "-Y"
             add("XmlDate", f"{sign}-year-{tzname}", [("year", sign)] + DATE + [("tz", tzname)], [r.format(y=y) for r in D_RANGES],
                 [("year", f"result.year == {y}"), ("month", "result.month == Mo"), ("day", "result.day == D"), ("timezone", tz_post)])
+            # years of more than four digits (symbolic-length digit run, no leading zero)
+            yl = "nat(yd)" if sign == "positive" else "-nat(yd)"
+            add("XmlDate", f"{sign}-long-year-{tzname}", [("year", sign + "-long")] + DATE + [("tz", tzname)], [r.format(y=yl) for r in D_RANGES],
+                [("year", f"result.year == {yl}"), ("month", "result.month == Mo"), ("day", "result.day == D"), ("timezone", tz_post)])
+            for n in (0, 3):
+                midnight = "implies(H == 24, M == 0 and S == 0" + (" and k == 0" if n else "") + ")"
+                add("XmlDateTime", f"{sign}-long-year-{n or 'no'}-fraction-digits-{tzname}",
+                    [("year", sign + "-long")] + DATE + [("sep", "T")] + TIME + [("frac", n), ("tz", tzname)],
+                    [r.format(y=yl) for r in D_RANGES] + T_RANGES + [midnight],
+                    [("year", f"result.year == {yl}"), ("month", "result.month == Mo"), ("day", "result.day == D"),
+                     ("hour", "result.hour == H"), ("minute", "result.minute == M"), ("second", "result.second == S"),
+                     ("fraction-in-nanoseconds", f"result.fractional_second == {frac_value(n)}"), ("timezone", tz_post)])
 
 
 def register_period_acceptance(db):
@@ -438,6 +459,9 @@ def register_period_acceptance(db):
         y = "Y" if sign == "positive" else "-Y"
         SHAPES[f"gYear-{sign}"] = ([("year", sign)], [], (y, None, None))
         SHAPES[f"gYearMonth-{sign}"] = ([("year", sign), DASH, ("d2", "Mo")], ["1 <= Mo", "Mo <= 12"], (y, "Mo", None))
+        yl = "nat(yd)" if sign == "positive" else "-nat(yd)"
+        SHAPES[f"gYear-{sign}-long"] = ([("year", sign + "-long")], [], (yl, None, None))
+        SHAPES[f"gYearMonth-{sign}-long"] = ([("year", sign + "-long"), DASH, ("d2", "Mo")], ["1 <= Mo", "Mo <= 12"], (yl, "Mo", None))
     for shape, (tokens, extra, (yy, mo, dd)) in SHAPES.items():
         for tzname, (_, _, tz_post, _, _) in TZ.items():
             core, ghost, ranges, plan, hints = lexical_form(tokens + [("tz", tzname)])
@@ -445,7 +469,7 @@ def register_period_acceptance(db):
             # the shape dispatch looks for ':' (a timezone offset) and for the last '-' before it
             flat, tzp = lexical_form.pieces, lexical_form.tz_pieces
             date = flat[: len(flat) - len(tzp)]
-            pads = [p for p in flat if p.startswith("pad(")]
+            pads = [p for p in flat if p.startswith("pad(") or p == "yd"]
             hints += [f"digits_only({p}, ':')" for p in pads] + [f"digits_only({p}, '-')" for p in pads]
             hints += [f"find_in(':', {', '.join(flat)})", f"rfind_in('-', {', '.join(flat)})", f"rfind_in('-', {', '.join(date)})"]
             if tzp:
@@ -471,3 +495,43 @@ def register_period_acceptance(db):
                 hints=hints, call_variants=plan, ensures=post, raises={}, properties=PR,
                 note="shape dispatch (startswith / length / find / rfind) followed by the format scanner",
             ))
+
+
+def register_long_years(db):
+    """Years of more than four digits (XSD: no leading zero then): the digit run is of unknown length, so
+    parse_minimum_digits is proved with a loop invariant - the cursor stays inside the run while the character under
+    it is a digit of the run (lemma schemas digit_at / char_in_token instantiated at the cursor)."""
+    PR = ["C06"]
+    HERE = ["self.vidx == len(head)"] + WF
+    NOT_DIGIT = "(len(rest) == 0 or rest[0:1] < '0' or ('9' < rest[0:1] and rest[0:1] <= '\\x7f'))"
+    PMD = f"{P}.parse_minimum_digits"
+    RUN = ["self.value == head + yd + rest", "matches(yd, '[0-9]+')", "len(yd) >= 4", NOT_DIGIT]
+    db.add(Contract(
+        PMD, variant="accepts-a-long-digit-run",
+        params={"self": parser, "min_digits": 4},
+        ghost={"head": "str", "yd": "str", "rest": "str"},
+        requires=HERE + RUN,
+        hints=["substr_at(self.value, head, yd, rest)", "int_of_digits(yd)", "substr_at(self.value, head + yd, rest[0:1], rest[1:])",
+               "split_first(rest)"],
+        ensures=[("component-value", "result == nat(yd)"), ("consumes-exactly-the-digits", "self.vidx == len(head) + len(yd)")] + KEEP,
+        raises={}, returns="int", modifies=["self.vidx"],
+        loops=[Loop(invariants=["self.vidx >= start + 4", "self.vidx <= start + len(yd)", "self.vlen == len(self.value)", "start == len(head)"],
+                    hints=["digit_at(yd, self.vidx - start)", "char_in_token(self.value, head, yd, rest, self.vidx - start)"],
+                    decreases="self.vlen - self.vidx", header="self.has_more() and self.peek().isdigit()")],
+        properties=PR,
+    ))
+    LONG = ["matches(yd, '[0-9]+')", "matches(yd, '[1-9][0-9][0-9][0-9][0-9]+')", "len(yd) >= 5"]
+    for sign, lead, val in (("", "", "nat(yd)"), ("negative-", " + '-'", "-nat(yd)")):
+        db.add(Contract(
+            f"{P}.parse_year", variant=f"accepts-{sign}long-year",
+            params={"self": parser}, ghost={"head": "str", "yd": "str", "rest": "str"},
+            requires=HERE + [f"self.value == head{lead} + yd + rest"] + LONG + [NOT_DIGIT],
+            hints=[f"substr_at(self.value, head{lead}, yd, rest)", "lstrip_noop(yd, '0')", "digit_at(yd, 0)", "split_first(yd)",
+                   "digits_only(yd, '-')"]
+                  + ([f"char_in_token(self.value, head, yd, rest, 0)", "head_of(yd, rest)"] if not sign else
+                     [f"substr_at(self.value, head, '-', yd + rest)"]),
+            call_variants={PMD: [("accepts-a-long-digit-run", {"head": f"head{lead}", "yd": "yd", "rest": "rest"})]},
+            ensures=[("component-value", f"result == {val}"),
+                     ("consumes-exactly-the-year", f"self.vidx == len(head) + len(yd){' + 1' if sign else ''}")] + KEEP,
+            raises={}, returns="int", modifies=["self.vidx"], properties=PR,
+        ))
